@@ -131,8 +131,17 @@ def judge(sched, timeout, i, res, case):
         if i.get("outcome") == "TimeoutExpired":
             if not (i.get("killed") and i.get("reaped")):
                 res.fail("oracle", case, {"why": "timed-out command was not killed and reaped", "impl": i})
-        elif i.get("outcome") != "UnicodeDecodeError":
-            res.fail("oracle", case, {"why": "command outlived the time limit but was not reported as timed out", "impl": i})
+        else:
+            # only invalid bytes read before the limit was hit may surface first; an incomplete character is held back
+            import codecs
+            invalid = False
+            for data in (b"".join(e.out for e in sched[: hit + 1]), b"".join(e.err for e in sched[: hit + 1])):
+                try:
+                    codecs.getincrementaldecoder("utf-8")().decode(data, False)
+                except UnicodeDecodeError:
+                    invalid = True
+            if not (invalid and i.get("outcome") == "UnicodeDecodeError"):
+                res.fail("oracle", case, {"why": "command outlived the time limit but was not reported as timed out", "impl": i})
         return
     eo, ee = expected_text(all_out), expected_text(all_err)
     if eo is None or ee is None:
